@@ -21,7 +21,7 @@ RULE = ("(a) every fault site (C12 matrix + list/tuple/number given to String an
         "lists nested to 6; (c) CSV faults: empty file, header only, ragged rows, non-numeric cells, missing column, duplicate "
         "headers, quoted newlines, NUL bytes, non-UTF-8 bytes, 1 MB field, nan/inf/1e400 cells; (d) open() raising at the n-th call; "
         "(e) mismatched shapes / weights / empty lists; distinct by (class, fault/edit kind, command, outcome class)")
-REQUIRED_COUNTERS = ["boundary_outcomes_recorded", "mpilot_errors_seen", "cli_runs_checked", "error_messages_rendered", "io_faults_injected", "csv_faults_run", "text_corruptions_run", "cli_subprocess_runs", "netcdf_faults_run", "api_built_fault_models", "api_object_reference_models", "near_type_values_given"]
+REQUIRED_COUNTERS = ["api_rings_built", "boundary_outcomes_recorded", "mpilot_errors_seen", "cli_runs_checked", "error_messages_rendered", "io_faults_injected", "csv_faults_run", "text_corruptions_run", "cli_subprocess_runs", "netcdf_faults_run", "api_built_fault_models", "api_object_reference_models", "near_type_values_given"]
 ASSUMPTIONS = ["SyntaxError vs MPilotError for malformed text: either is allowed", "command files that are not valid UTF-8, KeyboardInterrupt and MemoryError are out of scope",
                "the CLI's behaviour for SyntaxError is not specified by the property and not judged"]
 
@@ -98,7 +98,10 @@ def cases(ctx):
                     "A = Sum(InFieldNames = A)", "A = Sum(InFieldNames = [A])", "A = Copy(InFieldName = A, Metadata = 5)", "A = Copy(InFieldName = B, Metadata = [1, 2])",
                     "A = Copy(InFieldName = B, InFieldName = B)", 'A = EEMSRead(InFileName = "x.csv", InFileName = "y.csv", InFieldName = X)', "A = C(P = 1, P = 2)\nB = C(Q = 1)", "A = C(P = 1)\nB = C(Q = 1, Q = [2])",
                     "READ(InFileName = x, InFileName = y, InFieldName = A)", "A = Sum(InFieldNames = [B], InFieldNames = [C], Metadata = [a: b], Metadata = [a: c])",
-                    "READ(InFileName = x)", "READ()", "CVTTOFUZZY(InFieldName = [a])", "SUM(NewFieldName = [a, b], InFieldNames = [a])"):
+                    "READ(InFileName = x)", "READ()", "CVTTOFUZZY(InFieldName = [a])", "SUM(NewFieldName = [a, b], InFieldNames = [a])",
+                    # numbers written with thousands of digits (whole, decimal, exponent, negative; as a value, in a list, as a tuple value)
+                    "A = C(P = " + "9" * 5000 + ")", "A = C(P = -" + "1" * 4301 + ")", "A = C(P = [1, " + "7" * 6000 + "])", "A = C(P = [k: " + "3" * 4400 + "])", "A = C(P = 0." + "9" * 5000 + ")",
+                    "A = C(P = " + "9" * 5000 + "e5)", "A = C(P = 1e" + "9" * 500 + ")", "A = Sum(InFieldNames = [B], Weights = [" + "9" * 5000 + "])", "A = C(P = " + "0" * 5000 + "1)"):
         if ctx.shard == 0:
             yield {"kind": "text", "text": special, "table": None}
     # very deep models (listed top-down and bottom-up) and a very long ring: whatever happens must be an MPilot error
@@ -129,6 +132,8 @@ def cases(ctx):
     # values that are almost of the expected type, given through the programming interface
     for i in range(ctx.n(160, 6000)):
         yield {"kind": "apinear", "variant": i * ctx.nshards + ctx.shard, "rseed": rng.randrange(10 ** 9)}
+    for i in range(ctx.n(30, 1500)):
+        yield {"kind": "apicycle", "variant": i % 3, "rseed": rng.randrange(10 ** 9)}
     # (e) run-time faults through API and CLI
     for i in range(ctx.n(300, 15000)):
         yield {"kind": "runtime", "fault": rng.choice(["shape", "shape", "weights", "empty", "k-too-big", "bad-direction", "bad-truest", "dup-raw", "len-mismatch", "equal-thresholds"]),
@@ -292,7 +297,9 @@ def _near_values():
             ("bytes-ascii", b"in.csv"), ("bytes-latin1", "caf\xe9.csv".encode("latin-1")), ("bytes-utf8", "caf\xe9.csv".encode("utf-8")), ("path", pathlib.Path("in.csv")),
             ("fraction", Fraction(3, 2)), ("decimal", Decimal("1.5")), ("ordered-dict", collections.OrderedDict([("a", "b")])), ("tuple", ("A", "A")), ("generator-like-range", range(2)),
             ("set", {"A"}), ("frozenset", frozenset(["A"])), ("complex", 1 + 2j), ("none", None), ("1-element-array", numpy.array([1.5])), ("str-subclass", type("S", (str,), {})("A")),
-            ("int-subclass", type("I", (int,), {})(2)), ("list-subclass", type("L", (list,), {})(["A"])), ("dict-subclass", type("D", (dict,), {})(a="b"))]
+            ("int-subclass", type("I", (int,), {})(2)), ("list-subclass", type("L", (list,), {})(["A"])), ("dict-subclass", type("D", (dict,), {})(a="b")),
+            ("text-ratio-over-zero", "1/0"), ("text-zero-over-zero", "0/0"), ("text-ratio-over-decimal-zero", "1/0.0"), ("text-ratio", "2/3"), ("text-percent", "50%"), ("text-exponent-only", "e5"),
+            ("text-hex", "0x1F"), ("text-underscore-number", "1_000"), ("text-infinity", "Infinity"), ("text-many-digits", "9" * 5000)]
 
 
 def run_apinear(ctx, case):
@@ -327,6 +334,45 @@ def run_apinear(ctx, case):
     except Exception as e:
         b.exc = e
     _classify(ctx, b, "api-value:%s" % label, {"value": label, "site": site})
+
+
+def run_apicycle(ctx, case):
+    """Rings of commands closed through add_command (no line numbers), alone or completing a forward reference of a loaded
+    file: load + run ends with an MPilot error, never with a raw exception."""
+    from mpilot.program import Program
+    rng = random.Random(case["rseed"])
+    d = ctx.scratch()
+    with open(os.path.join(d, "in.csv"), "w") as f:
+        f.write("X0,X1\n1,2\n3,4\n")
+    k = rng.randint(2, 5)
+    names = ["R%d" % i for i in range(k)]
+    ctx.count("api_rings_built")
+    ctx.feature(("apicycle", case["variant"], k))
+    b = _Outcome()
+    try:
+        b.stage = "load"
+        if case["variant"] == 0:
+            prog = Program(libraries=arr.CSV_LIBS, working_dir=d)
+            first = 0
+        else:
+            # the file refers forward to a result that a later add_command supplies - closing a ring
+            text = 'A = EEMSRead(InFileName = "in.csv", InFieldName = X0)\n%s = Sum(InFieldNames = [A, %s])\n' % (names[0], names[1])
+            prog = Program.from_source(text, libraries=arr.CSV_LIBS, working_dir=d)
+            first = 1
+        for i in range(first, k):
+            nxt = names[(i + 1) % k]
+            if rng.random() < 0.5:
+                prog.add_command(prog.find_command_class("Copy"), names[i], {"InFieldName": nxt})
+            else:
+                prog.add_command(prog.find_command_class("Sum"), names[i], {"InFieldNames": [nxt, nxt] if rng.random() < 0.5 else [nxt]}, **({"lineno": 40 + i} if case["variant"] == 2 and i % 2 else {}))
+        b.stage = "run"
+        prog.run()
+        b.stage = "done"
+    except Exception as e:
+        b.exc = e
+    if b.exc is None:
+        ctx.dontcare("ring accepted (judged by C14)")
+    _classify(ctx, b, "api-ring:%s" % ["pure", "closing-a-forward-reference", "some-with-line-numbers"][case["variant"]], {"ring": names})
 
 
 def run_apiobj(ctx, case):
@@ -376,7 +422,7 @@ def run_apiobj(ctx, case):
 
 def run_case(ctx, case):
     k = case["kind"]
-    return {"fault": run_fault, "text": run_text, "csv": run_csv, "io": run_io, "runtime": run_runtime, "nc": run_nc, "apiobj": run_apiobj, "apinear": run_apinear}[k](ctx, case)
+    return {"fault": run_fault, "text": run_text, "csv": run_csv, "io": run_io, "runtime": run_runtime, "nc": run_nc, "apiobj": run_apiobj, "apinear": run_apinear, "apicycle": run_apicycle}[k](ctx, case)
 
 
 def run_fault(ctx, case):
